@@ -535,7 +535,7 @@ class C04(Spec):
         # (e) long containers
         for kind in KINDS:
             n = (3000 if quick else 20000) if kind != 'T' else (600 if quick else 2000)
-            for rep in range(2 if quick else 4):
+            for rep in range(2 if quick else 3):
                 cs.append(Case(f'big{kind}{rep}', big_case(rng, kind, n)))
         return cs
 
